@@ -13,16 +13,42 @@ class Bench:
     def __init__(self, version):
         self.world, self.proto = mgr.serving_manager(version=version)
 
-    def run(self, value):
+    def _flag(self):
+        return self.proto.protocol_v2 if hasattr(self.proto, "protocol_v2") else self.proto
+
+    def run(self, value, pending=False):
+        """pending: the request arrives while a link failure of an earlier request is still to be
+        repaired (the manager's comm-issue flag is set): a rejected request must not touch the link then
+        either - no close / re-open / bring-up exchange."""
         install(self.world)
         d = self.world.device
         d.mode = MODE_SIGNER
         d.sign = None
         d.blk = None
+        self._flag()._comm_issue = False
+        if pending:
+            from .. import reqs as _reqs
+            import random as _random
+            self.world.reset_counters()
+            self.world.faults = {0: ("write",)}
+            ver = 1 if hasattr(self.proto, "protocol_v2") else 5
+            mgr.handle_line(self.proto, json.dumps(_reqs.make("getPubKey", _random.Random(1), ver)[0]).encode())
+            self.world.reset_counters()
+            if not self._flag()._comm_issue:
+                raise core.MachineryError("could not put the manager into the repair-pending state")
         n0 = len(self.world.log)
         o = mgr.handle_line(self.proto, json.dumps(value).encode())
-        contacted = any(e["ev"] == "apdu" for e in self.world.log[n0:])
+        contacted = any(e["ev"] in ("apdu", "open", "close") for e in self.world.log[n0:])
         del self.world.log[:]
+        if pending:
+            # leave a clean link for the next case
+            self._flag()._comm_issue = False
+            try:
+                if not self.proto.hsm2dongle.dongle.opened:
+                    self.proto.hsm2dongle.connect()
+            except Exception:
+                self.proto.hsm2dongle.connect()
+            del self.world.log[:]
         rep = o.reply()
         c = rep.get("errorcode") if rep else None
         has = isinstance(c, int) and not isinstance(c, bool)
@@ -66,12 +92,13 @@ def run(ctx):
             a = reqs_[i]
             for k in range(reps):
                 value = dispatch.concretise(a["req"], v1, ctx.rng)
-                code, has, contacted, shut = bench.run(value)
+                pend = (len(cells) % 4 == 3)
+                code, has, contacted, shut = bench.run(value, pending=pend)
                 observed = 0 if (contacted or code >= 0) else code
                 if observed != a["verdict"]:
                     drift += 1
                 cells.append({"req": a["req"], "v1": v1, "code": code, "hascode": has, "contacted": contacted,
-                              "shutdown": shut, "value": value if len(json.dumps(value)) < 3000 else "<large>"})
+                              "shutdown": shut, "pending": pend, "value": value if len(json.dumps(value)) < 3000 else "<large>"})
                 if shut:
                     bench = Bench(1 if v1 else 2)
     res.coverage["requests_executed"] = len(cells)
@@ -108,7 +135,8 @@ def run(ctx):
     for c in bad:
         r = c["req"]
         mutated = {k: v for k, v in r.items() if k in relevant(r, c["v1"])}
-        sig = "%s|%s %s -> %s%s" % (fails[c["id"]], "v1" if c["v1"] else "v5",
+        sig = "%s%s|%s %s -> %s%s" % (fails[c["id"]], "@repair-pending" if c.get("pending") else "",
+                                      "v1" if c["v1"] else "v5",
                                     ",".join("%s=%s" % kv for kv in sorted(mutated.items())),
                                     c["code"] if c["hascode"] else "<none>", " contacted" if c["contacted"] else "")
         res.violation(sig, "%s: request class %s answered %s%s" % (
